@@ -232,6 +232,11 @@ func (a *scramAuth) handleServerFirstResponse(fromServer []byte) ([]byte, error)
 
 // handleServerValidationMessage verifies the server's signature during the SCRAM authentication process.
 func (a *scramAuth) handleServerValidationMessage(fromServer []byte) ([]byte, error) {
+	// without the first server message of this exchange there is no key material and no
+	// authentication message the server could have signed
+	if len(a.saltedPwd) == 0 || len(a.authMessage) == 0 {
+		return nil, errors.New("server signature received before the first server message")
+	}
 	serverSignature := fromServer[2:]
 	computedServerSignature := a.computeServerSignature()
 
